@@ -62,6 +62,7 @@ BOUNDS = {
               "slit_both": "(L/qmid, W/qmin) in (0.8, 0.1), (0.1, 0.5), (5, 0.3)",
               "slit_width_folded_over_qmin": [5.0, 2.3, 1.2, 1.0],
               "pinhole_folded_q_over_sigma": [0.4, 1.0, 2.0, 2.5],
+              "second_use": "every apply(): the theory array is compared bit for bit with its copy and applied a second time",
               "storage_order": "every 1-D case of the intensities linear and dampedcos also with the data points stored "
                                "descending, rotated (cyclic shift n//3) and interleaved (two banks)",
               "pinhole_default_grid": "data = linspace(qref, 6 qref, n), n = 31, 61, 121, sigma = q/ratio for the folded "
@@ -182,6 +183,29 @@ class Conv(object):
         self.r.fail("%s: %s" % (self.desc, msg), dict(self.fk, clause=clause, **extra), count_eval=False)
 
 
+def _apply_twice(cv, r, res, theory):
+    """
+    the smeared values that are judged against the integrals are those of apply() on a theory array that is then used
+    again: apply() must leave the array it was given bit-identical, and a second apply() on the SAME array must return
+    bit-identical values (otherwise the value depends on how often the theory was used, not on the integral)
+    """
+    th = np.ascontiguousarray(theory, float)
+    keep = th.copy()
+    first = np.array(res.apply(th), float)
+    if not np.array_equal(th, keep, equal_nan=True):
+        k = int(np.argmax(th != keep))
+        cv.bad("inputs-modified", "apply() changed the theory array it was given: element %d was %r, is %r"
+               % (k, keep.ravel()[k], th.ravel()[k]), what="theory")
+    second = np.array(res.apply(th), float)
+    if second.shape != first.shape or not np.array_equal(first, second, equal_nan=True):
+        k = int(np.argmax(first != second)) if second.shape == first.shape else 0
+        cv.bad("second-use", "apply() on the same theory array gives %r the first time and %r the second time (data point %d)"
+               % (first[k] if second.shape == first.shape else first.shape, second[k] if second.shape == first.shape else second.shape, k),
+               what="apply")
+    r.branch("apply-twice")
+    return first
+
+
 def _judge(cv, r, i, qi, h, got, exact, bound, unsmeared, ref_err, what):
     """one data point at one refinement"""
     scale = abs(exact) + 1e-300
@@ -299,7 +323,7 @@ def run_pinhole(case, ctx, r):
             qc = _grid(lo, hi, h, case.get("offset", 1 / 3.0))
         res = resolution.Pinhole1D(q.copy(), sig.copy(), q_calc=qc)
         with np.errstate(all="ignore"):
-            got = np.asarray(res.apply(t.f(np.asarray(res.q_calc, float))), float)
+            got = _apply_twice(cv, r, res, t.f(np.asarray(res.q_calc, float)))
         e, b = [], []
         for i in range(3):
             bound = pinhole_bound(t, q[i], sig[i], h, ex[i][0], cut=c if low else 0.0)
@@ -384,7 +408,7 @@ def run_pinhole_default(case, ctx, r):
             warnings.simplefilter("ignore")
             res = resolution.Pinhole1D(q.copy(), sig.copy())
         with np.errstate(all="ignore"):
-            got = np.asarray(res.apply(t.f(np.asarray(res.q_calc, float))), float)
+            got = _apply_twice(cv, r, res, t.f(np.asarray(res.q_calc, float)))
         e, b = [], []
         for frac in range(7):
             i = int(inv[frac * (n - 1) // 6])      # stored position of the judged (ascending-indexed) point
@@ -450,7 +474,7 @@ def run_slit(case, ctx, r):
             qc = _grid(lo, hi, h, case.get("offset", 1 / 3.0))
         res = resolution.Slit1D(q.copy(), q_length=L, q_width=W, q_calc=qc)
         with np.errstate(all="ignore"):
-            got = np.asarray(res.apply(t.f(np.asarray(res.q_calc, float))), float)
+            got = _apply_twice(cv, r, res, t.f(np.asarray(res.q_calc, float)))
         e, b = [], []
         for i in range(3):
             wl, wh = wins[i]
@@ -560,7 +584,7 @@ def run_p2d(case, ctx, r):
     cx, cy = [np.asarray(v, float) for v in res.q_calc]
     Q = lambda x, y: a * x * x + b * x * y + c * y * y + d
     with np.errstate(all="ignore"):
-        got = np.asarray(res.apply(Q(cx, cy)), float)
+        got = _apply_twice(cv, r, res, Q(cx, cy))
     m2 = m2_exact(3.0)
     frac = M2_BOUND[case["acc"]]
     for i in range(len(qx)):
@@ -608,6 +632,7 @@ def finish(ctx, report):
     for a in ACCURACIES:
         report.require("p2d:" + a, len(SIG2D) * len(FORMS2D), "2-D accuracy level")
     report.require("nontrivial", 500, "smeared value differs from the unsmeared one")
+    report.require("apply-twice", 500, "apply() twice on the same theory array, array compared with its copy")
     for o in H.ORDERS[1:]:
         report.require("order:" + o, 40, "1-D cases with the data points stored in another order")
     report.require("pinhole:folded", 20, "pinhole width sets whose windows reach q <= 0 (user grids with negative q)")
